@@ -11,9 +11,10 @@ EXPLANATION = (
     "exception table); (K2/K3) the explicit panic / unwrap / expect sites in lexers, parsers, translators, binder and "
     "processor are exactly the allow-listed ones (each with the local invariant that makes it unreachable); (K4) a "
     "lexer field that is used to slice the source string is only advanced by len_utf8()/str lengths or restored from a "
-    "saved copy, and slices never use cursor+constant; (K5) every recursion cycle of a parser contains a depth check; "
-    "(K7) FFI entry points run the engine under catch_unwind. Slice-index bounds, allocation size and parser-loop "
-    "progress are not decided.")
+    "saved copy, and slices never use cursor+constant; (K5) with the depth-guarded entries removed, every parser's call "
+    "graph is acyclic (each recursion cycle passes a depth check); (K5b) the same for translators, binder, optimizer and "
+    "planners, whose recursion follows AST/plan depth; (K7, information only) FFI entry points and catch_unwind. "
+    "Slice-index bounds, allocation size and parser-loop progress are not decided.")
 ASSUMPTIONS = ["overflow checks are on in the profile the tests run in (dev/test), so an arithmetic Assert is a reachable panic",
                "rapid type analysis from the session entry points decides which operators are reachable"]
 
